@@ -29,7 +29,7 @@ def readme():
                 name, m["change"], m["needs_to_manifest"],
                 ", ".join("%s: %s" % (k, "/".join(v)) for k, v in m["detected_by"].items()) or "NOT DETECTED",
                 "first try" if m["history"].startswith("detected by the quick") else
-                "not reported: outside the documented contract (see meta.json)" if not m["detected"] else
+                "not reported: outside the property's quantifier / documented contract (see meta.json)" if not m["detected"] else
                 "by another property's check (see meta.json)" if m["history"].startswith("not a C") or m["history"].startswith("NOT reported by C01") else
                 "after strengthening (see meta.json)"))
     n = len(rows); late = sum("after strengthening" in r for r in rows)
@@ -51,10 +51,11 @@ All %d keep the 475 baseline tests green and are confirmed by their own
 demonstration; %d were reported by the quick tier of their property's check as
 it stood, %d were missed at first and led to stronger generators, %d are
 reported by another property's check (the one whose statement they really
-break), and %d (round 7, which asked for unusual argument *types*) are
-deliberately not reported because they only show for argument forms outside
-the documented contract (see the `history` field of each meta.json and
-DESIGN.md section 10.1).
+break), and %d are deliberately not reported because they only show outside
+what the property quantifies over - argument *types* outside the documented
+contract (round 7), local socket send errors, the alignment of an empty range
+(round 9) - each with its reason in the `history` field of its meta.json and
+in DESIGN.md section 10.1.
 
 | id | change | needs to manifest | reported by (violation kinds) | detected |
 |----|--------|-------------------|-------------------------------|----------|
